@@ -204,6 +204,12 @@ def capture_table_dates(ctx, tz):
 
 def run(ctx):
     n = ctx.n(900, 30000)
+    for c0 in range(0, n, 2500):
+        blocks_chunk(ctx, min(2500, n - c0))
+    block_extras(ctx)
+
+
+def blocks_chunk(ctx, n):
     cases = B.gen_cases(ctx, n, big=ctx.thorough)
     models = B.model_side(cases)
     for (kind, v), m in zip(cases, models):
@@ -233,6 +239,9 @@ def run(ctx):
             ctx.fail(f"{kind}: the library extracts different values (or consumes {tell} of {len(m['enc'])} bytes) from layout-conformant bytes", rep, ident=f"{kind} layout (read)")
         if m["dec_abs"] != got:
             ctx.diff("blk.dec", f"{kind}: model decode differs from real decode", rep)
+
+
+def block_extras(ctx):
     # the same object written again after in-place edits: the bytes are those of the layout for the object as it is NOW
     from sessions.c01 import life_cycles
 
